@@ -191,6 +191,7 @@ PROBES: Dict[str, tuple] = {
     'R145': ('def from_string(s):\n    _s = s.lstrip("~").lower()\n    return _s\n', 1),
     'R147': ('def typ(constant_string, value):\n    if value is not constant_string:\n        return 1\n    return 0\n', 1),
     'R148': ('def _parse_triple(tokens):\n    target = tokens.next().text\n    if target == "None":\n        target = None\n    return target\n', 1),
+    'R149': ('class G:\n    def __isub__(self, other):\n        gone = set(other.triples)\n        self.triples[:] = [t for t in self.triples if t not in gone]\n        for t in other.triples:\n            self.epidata.pop(t, None)\n        return self\n', 1),
     'R96': ('def f(a) -> str:\n    if a:\n        return "x"\n', 1),
 }
 
